@@ -1,7 +1,7 @@
 """Models of Python builtins used by the carrier functions."""
 import ast, z3
 from .core import *
-from .symexec import Raise, Unsupported, EnumerateOf, FuncRef, BuiltinRef, repr_str
+from .symexec import Raise, Unsupported, EnumerateOf, FuncRef, BuiltinRef, repr_str, Opaque
 from . import source as S
 
 def call(ex, st, fn, args, kw, node):
@@ -187,6 +187,18 @@ def method(ex, st, recv, name, args, kw, node=None):
         if name in ("strip", "rstrip", "lstrip") and len(args) == 1:
             if isinstance(recv, str) and isinstance(args[0], str): yield st, getattr(recv, name)(args[0]); return
             yield st, Sym(STR, ex.absfun_s("str_%s2" % name, [z3.StringSort()] * 2, z3.StringSort())(lift(recv).z, lift(args[0]).z)); return
+        if name == "join" and len(args) == 1 and isinstance(args[0], (UFL, Opaque)):
+            r = fresh(STR, "joined")[0]
+            st.ghost.setdefault("joins", {}); st.ghost["joins"] = dict(st.ghost["joins"]); st.ghost["joins"][str(r.z)] = (recv, args[0])
+            yield st, r; return
+        if name == "join" and len(args) == 1 and isinstance(args[0], (list, tuple)) and isinstance(recv, str):
+            parts = list(args[0])
+            if all(isinstance(p_, str) for p_ in parts): yield st, recv.join(parts); return
+            out = None
+            for k_, p_ in enumerate(parts):
+                z = lift(p_).z
+                out = z if out is None else z3.Concat(out, z3.StringVal(recv), z) if recv else z3.Concat(out, z)
+            yield st, (Sym(STR, out) if out is not None else ""); return
         if name == "endswith":
             yield st, Sym(BOOL, z3.SuffixOf(lift(args[0]).z, lift(recv).z)); return
         if name == "startswith":
